@@ -173,6 +173,16 @@ YenCount(aw, k, c) ==
     ELSE LET within == Cardinality({i \in 1 .. Len(aw) : c = 99 \/ aw[i] <= aw[1] + c})
          IN IF k < 0 \/ within < k THEN within ELSE k
 
+\* Queries about the returned tree itself.  Shortest.From / ShortestAlts.From: "the starting node
+\* of the paths held by" the tree - the source handed to the routine, for every query id (also the
+\* id that is not a node of the graph: the tree is empty then, its source is still that id).
+SourceOf(s) == s
+\* s = t on an id a that is not a node of the graph: the documentation leaves the answer open
+\* (AllShortest.Weight: +inf for absent ids; Between / AllBetween / AllBetweenFunc: "a shortest path
+\* from u to v").  The legal answers are the trivial path <<a>> of weight 0 - whose only node must
+\* carry the id a - and "no path, +inf"; nothing else is a path from a to a.
+SelfAbsent(a) == {[p |-> <<a>>, w |-> Fin(0)], [p |-> <<>>, w |-> PInf]}
+
 PathRec(S) == {[p |-> p, w |-> PW(E, p)] : p \in S}
 AnyNegEdge == \E q \in DOMAIN E : E[q] < 0
 
@@ -190,6 +200,8 @@ EmitCase ==
          anyneg  |-> T.nc # {},
          negedgefrom |-> [s \in 1 .. nn |-> \E q \in DOMAIN E : E[q] < 0 /\ q[1] \in T.ra[s]],
          anynegedge  |-> AnyNegEdge,
+         src   |-> [s \in Q |-> SourceOf(s)],
+         selfabsent |-> SelfAbsent(nn + 1),
          sink  |-> [s \in 1 .. nn |-> Succ(E, s) = {}],
          zcyc  |-> \E x, y \in 1 .. nn : /\ x # y /\ IsFin(T.tw[x][y]) /\ IsFin(T.tw[y][x])
                                           /\ T.tw[x][y][2] + T.tw[y][x][2] = 0,
